@@ -245,6 +245,28 @@ def pixelRisk (mn mx : Rat) (etas : List Rat) (curve : Curve) (sampled : List Na
     let rmin := nanMean (List.zipWith (fun s a => s.map (fun s => (1 + s) - (a : Rat))) spread sampled)
     (rmax, rmin)
 
+/-- an optional number as a float cell (`none` = NaN) -/
+def optVal : Option Rat → Val
+  | some q => .num q
+  | none => .nan
+
+/-- `(sampled_risk_max[row, col, :], sampled_risk_min[row, col, :])` of `compute_risk_and_sampled_risk`: per eta the
+    spread `max_disp − min_disp` of the disparities kept, and `1 + spread − sampled_ambiguity`; all NaN on a pixel without
+    finite cost.  `pixelRisk` is the pair of their `nanmean`s. -/
+def pixelSampledRisk (mn mx : Rat) (etas : List Rat) (curve : Curve) (sampled : List Nat) : List Val × List Val :=
+  match pixelBest mn mx curve with
+  | none => (List.replicate etas.length .nan, List.replicate etas.length .nan)
+  | some m =>
+    let nd := curve.length
+    let ne := etas.length
+    let cmp := pixelCmp mn mx etas curve m
+    let dispCv : List (Option Nat) :=
+      List.zipWith (fun d keep => if keep then some d else none) (npRepeat (List.range nd) ne) cmp
+    let mat := chunks ne nd dispCv
+    let cols := (List.range ne).map (fun i => (column none mat i).filterMap id)
+    let spread : List (Option Rat) := cols.map spreadOpt
+    (spread.map optVal, (List.zipWith (fun s a => s.map (fun s => (1 + s) - (a : Rat))) spread sampled).map optVal)
+
 def computeRisk (etas : List Rat) (v : Volume) : Option (Grid (Val × Val)) :=
   match globalMin v, globalMax v with
   | some mn, some mx =>
